@@ -468,6 +468,68 @@ fn main() {
         }
         cx.sink.log.lock().unwrap().script.clear();
     }
+    // keys written as string LITERALS (with braces, percent signs, backslashes): a literal is an expression like any other,
+    // the macro sends it as the tagged call does - verbatim
+    if !unset {
+        macro_rules! lit {
+            ($mac:ident, $method:ident, $key:literal, $val:expr) => {{
+                let b0 = cx.sink.emit_count();
+                let rm = panics::guard(|| { $mac!($key, $val); });
+                let m = cx.sink.emits_from(b0);
+                cx.sink.log.lock().unwrap().script.clear();
+                let b1 = cx.sink.emit_count();
+                let rc = panics::guard(|| { get_global_default().unwrap().$method($key, $val).send(); });
+                let c = cx.sink.emits_from(b1);
+                cx.sink.log.lock().unwrap().script.clear();
+                cx.rep.obs("macros_with_a_literal_key_containing_braces", 1);
+                if rm.is_ok() != rc.is_ok() || m.iter().map(|e| &e.0).collect::<Vec<_>>() != c.iter().map(|e| &e.0).collect::<Vec<_>>() {
+                    cx.violation("same-as-explicit-chain", "line-differs-from-chain", format!("{} with the literal key {:?} sent {:?}, the explicit chain sent {:?}", stringify!($mac), $key, m.first().map(|e| clip(&e.0, 120)), c.first().map(|e| clip(&e.0, 120))), Json::Null);
+                }
+            }};
+        }
+        lit!(statsd_count, count_with_tags, "lit.{{a}}.}}.{{", 1i64);
+        lit!(statsd_time, time_with_tags, "lit.{{0}}%s\\n", 2u64);
+        lit!(statsd_gauge, gauge_with_tags, "{{}}", 3u64);
+        lit!(statsd_meter, meter_with_tags, "lit.{{x:?}}", 4u64);
+        lit!(statsd_histogram, histogram_with_tags, "{{{{lit}}}}", 5u64);
+        lit!(statsd_distribution, distribution_with_tags, "lit}}{{", 6u64);
+        lit!(statsd_set, set_with_tags, "lit.{{", 7i64);
+    }
+    // temporaries of an argument expression (a lock guard, say) are gone before the metric is sent, as in the explicit
+    // sequence `let b = client.count_with_tags(key, value); b.send()`: while the sink runs, the calling thread holds
+    // nothing the argument took
+    if !unset {
+        use std::sync::atomic::{AtomicU32, Ordering as O};
+        static REGISTRY: std::sync::Mutex<(i64, u64)> = std::sync::Mutex::new((7, 9));
+        static HELD: AtomicU32 = AtomicU32::new(0);
+        static FREE: AtomicU32 = AtomicU32::new(0);
+        *EMIT_EXTRA.lock().unwrap() = Some(std::sync::Arc::new(|| {
+            match REGISTRY.try_lock() {
+                Ok(_) => FREE.fetch_add(1, O::SeqCst),
+                Err(_) => HELD.fetch_add(1, O::SeqCst),
+            };
+        }));
+        let r1 = panics::guard(|| {
+            statsd_count!("guard.temp", REGISTRY.lock().unwrap().0);
+            statsd_gauge!("guard.temp", REGISTRY.lock().unwrap().1, "t" => "v");
+        });
+        let (held_m, free_m) = (HELD.swap(0, O::SeqCst), FREE.swap(0, O::SeqCst));
+        let r2 = panics::guard(|| {
+            let c = get_global_default().unwrap();
+            let b = c.count_with_tags("guard.temp", REGISTRY.lock().unwrap().0);
+            b.send();
+            let b = c.gauge_with_tags("guard.temp", REGISTRY.lock().unwrap().1);
+            let b = b.with_tag("t", "v");
+            b.send();
+        });
+        let (held_c, free_c) = (HELD.swap(0, O::SeqCst), FREE.swap(0, O::SeqCst));
+        *EMIT_EXTRA.lock().unwrap() = None;
+        cx.sink.log.lock().unwrap().script.clear();
+        cx.rep.obs("macros_whose_argument_takes_a_lock_the_sink_probes", 2);
+        if r1.is_ok() != r2.is_ok() || held_m != held_c || free_m != free_c {
+            cx.violation("same-as-explicit-chain", "argument-temporary-outlives-the-send", format!("an argument expression that locks a mutex for its own duration: while the sink ran for the macros the mutex was held {} times and free {} times; for the explicit sequence held {} / free {}", held_m, free_m, held_c, free_c), Json::Null);
+        }
+    }
     // control flow inside an argument expression: `return` in a tag value leaves the CALLER, as it does in the explicit
     // chain - the macro is not a function call, and nothing around the argument may catch the jump
     if !unset {
